@@ -99,8 +99,13 @@ def _twin_job(job):
     tr["meta"]["conf"] = {k: (v if isinstance(v, (int, float, str, bool, type(None), list)) else repr(v)) for k, v in c.items()}
     tr["meta"]["seed"] = job["seed"]
     tr["meta"]["scribble"] = scribble
-    summ = pairs.summarize(s)
-    return {"trace": tr, "summary": dict(summ, job=job, raised=None), "counts": counts}
+    try:
+        summ = pairs.summarize(s)
+        broken = None
+    except Exception as ex:   # the stored history itself is no longer readable (e.g. the caller's scribbles ended up inside it)
+        summ = {"iters": [], "weights": [], "evidence": float("nan")}
+        broken = repr(ex)
+    return {"trace": tr, "summary": dict(summ, job=job, raised=None), "counts": counts, "history_unreadable": broken}
 
 
 def system_part(ck):
@@ -117,6 +122,11 @@ def system_part(ck):
             jobs.append(dict(conf=c, seed=170 + i + 100 * ck.seed, label=f"c17#{i} scribble={scribble}", n_total=32, scribble=scribble))
     with cf.ProcessPoolExecutor(max_workers=sysrun.PROCS, mp_context=mp.get_context("fork")) as ex:
         res = list(ex.map(_twin_job, jobs))
+    for r, j in zip(res, jobs):
+        if r.get("history_unreadable"):
+            ck.violation("scribble:history-unreadable" if j["scribble"] else "history-unreadable",
+                         f"the committed history of run {j['label']!r} cannot be read back ({r['history_unreadable']})" + (": what the caller wrote into returned objects is inside it" if j["scribble"] else ""),
+                         {"job": j})
     traces = [r["trace"] for r in res]
     fails, st = psrun.validate(traces)
     cnt = sysrun.attribute(ck, "C17", traces, fails)
